@@ -135,6 +135,20 @@ def run(ctx):
         r = gen.R(); gen.render(ast, r)
         cases.append({'src': r.src(), 'opts': {'lang': rng.choice(['en-GB', 'de-DE', 'ru-RU', '']), 'pack': '*'}, 'multi': True,
                       'thresh': rng.randint(0, 5), 'kind': 'sem', 'ast': ast, 'words': r.words, 'spans': r.spans, 'callspans': r.callspans})
+    # a language switch inside a detached flow: the words in front of it belong to the language in force at the footnote
+    for _ in range(max(40, n // 15)):
+        g = gen.G(rng, {'only': ONLY, 'heading_footnotes': False, 'max_depth': 2})
+        sw = {'t': 'selectlanguage', 'lang': rng.choice(['english', 'german', 'russian', 'french'])}
+        fn = {'t': 'footnote', 'name': rng.choice(['\\footnote', '\\footnotetext']), 'opt': None,
+              'body': {'t': 'seq', 'items': [g.word(), {'t': 'ws', 's': ' '}, g.word(), {'t': 'ws', 's': ' '}, sw, {'t': 'ws', 's': ' '},
+                                             g.word(), {'t': 'ws', 's': ' '}, g.word()]}}
+        items = [g.word(), {'t': 'ws', 's': ' '}, g.word(), fn]
+        if rng.random() < 0.5:
+            items = [{'t': 'selectlanguage', 'lang': rng.choice(['german', 'russian'])}, {'t': 'ws', 's': '\n'}] + items
+        ast = {'t': 'seq', 'items': items}
+        r = gen.R(); gen.render(ast, r)
+        cases.append({'src': r.src(), 'opts': {'lang': rng.choice(['en-GB', 'de-DE', 'ru-RU']), 'pack': '*'}, 'multi': True,
+                      'thresh': rng.randint(0, 5), 'kind': 'sem', 'ast': ast, 'words': r.words, 'spans': r.spans, 'callspans': r.callspans})
     ctx.stats['_rule'] = ('documents of words, groups, unknown macros, footnotes mixed with \\selectlanguage, \\foreignlanguage and otherlanguage '
                           'environments in any nesting; thresholds 0..5; main languages en-GB/de-DE/ru-RU/fr/en-US/none; reference language per word '
                           'from a push/pop/replace-top reading of the AST; non-trivial = at least two languages expected')
